@@ -57,37 +57,46 @@ def field_deps_flow(func, fields_of_interest=None):
 
 
 def check_binary_apply(ctx, rule, cls, f, op_field, left_field, right_field):
-    """A return of ``self.<op>(l, r)`` with l derived from left_field only and r from right_field only."""
+    """Every call ``self.<op>(l, r)``: l derives from left_field only and r from right_field only."""
     if f is None:
         raise AnalysisError('%s: evaluation method vanished' % cls.qualname)
     selfname = f.self_name
     classify = field_deps_flow(f)
-    fl = Flow(classify)
+    sites = []
+
+    def on_stmt(st, state):
+        exprs = [st]
+        if isinstance(st, (ast.If, ast.While)):
+            exprs = [st.test]
+        elif isinstance(st, ast.For):
+            exprs = [st.iter]
+        elif isinstance(st, ast.With):
+            exprs = [i.context_expr for i in st.items]
+        for e in exprs:
+            for n in ast.walk(e):
+                if isinstance(n, ast.Call) and len(n.args) == 2:
+                    fn = n.func
+                    if is_self_attr(fn, selfname, op_field) or \
+                            (isinstance(fn, ast.Name) and 'self.' + op_field in state.get(fn.id, ())):
+                        sites.append((n, dict(state), st))
+    fl = Flow(classify, on_stmt=on_stmt)
     fl.run(f.node, {})
-    found = 0
-    for r, state in fl.returns:
-        v = r.value
-        call = None
-        for n in ast.walk(v) if v is not None else []:
-            if isinstance(n, ast.Call) and len(n.args) == 2:
-                fn = n.func
-                if is_self_attr(fn, selfname, op_field) or (isinstance(fn, ast.Name) and 'self.' + op_field in state.get(fn.id, ())):
-                    call = n
-                    break
-        if call is None:
+    seen = set()
+    for call, state, st in sites:
+        if id(call) in seen:
             continue
-        found += 1
+        seen.add(id(call))
         l = classify(call.args[0], state)
         rr = classify(call.args[1], state)
         L, Rr = 'self.' + left_field, 'self.' + right_field
-        ok = (L in l or not l) and Rr not in l and (Rr in rr or not rr) and L not in rr and (l or rr)
+        ok = L in l and Rr not in l and Rr in rr and L not in rr
         ctx.ob(rule, f.construct, 'applies %s(left, right) in that order' % op_field, ok,
                detail='%s applies its operator to (%s, %s): first operand derives from %s, second from %s; expected '
                       'left then right' % (f.construct, unparse(call.args[0]), unparse(call.args[1]), sorted(l), sorted(rr)),
-               where=where(f, r))
-    if not found:
+               where=where(f, st))
+    if not sites:
         ctx.ob(rule, f.construct, 'applies %s(left, right)' % op_field, False,
-               detail='no return applying self.%s to two operands was found' % op_field, where=f.where)
+               detail='no call applying self.%s to two operands was found' % op_field, where=f.where)
 
 
 # ---------------------------------------------------------------------------------------
@@ -480,3 +489,80 @@ def must_reach(ctx, rule, func, writes, reaches, what, detail, allowed_guard=Non
 
 def _only_self(cfg, w, U):
     return False
+
+
+# ---------------------------------------------------------------------------------------
+# R-ITER: no structural mutation of a collection inside a ``for`` over the same expression
+MUTATORS = ('remove', 'append', 'pop', 'insert', 'clear', 'extend', 'discard', 'add', 'popitem', 'update', 'setdefault',
+            '__delitem__', '__setitem__')
+
+
+def iter_mutations(func_node):
+    """[(for node, collection text, mutating node)] for loops that iterate a live collection and mutate it."""
+    out = []
+    for lp in ast.walk(func_node):
+        if not isinstance(lp, ast.For):
+            continue
+        it = lp.iter
+        # live iteration only: a bare name / attribute chain, or .items()/.keys()/.values() of one
+        base = it
+        if isinstance(it, ast.Call) and isinstance(it.func, ast.Attribute) and it.func.attr in ('items', 'keys', 'values') \
+                and not it.args:
+            base = it.func.value
+        if not isinstance(base, (ast.Name, ast.Attribute)):
+            continue
+        coll = unparse(base)
+        if isinstance(base, ast.Name) and len(coll) <= 0:
+            continue
+        for st in lp.body:
+            for n in ast.walk(st):
+                hit = None
+                if isinstance(n, ast.Call) and isinstance(n.func, ast.Attribute) and n.func.attr in MUTATORS \
+                        and unparse(n.func.value) == coll:
+                    hit = n
+                elif isinstance(n, ast.Delete):
+                    for t in n.targets:
+                        if isinstance(t, ast.Subscript) and unparse(t.value) == coll:
+                            hit = n
+                elif isinstance(n, ast.Assign):
+                    for t in n.targets:
+                        if isinstance(t, ast.Subscript) and unparse(t.value) == coll and isinstance(base, ast.Attribute) \
+                                and isinstance(it, ast.Call):
+                            hit = n      # d[k] = v while iterating d.items() may resize
+                if hit is not None:
+                    # a mutation immediately followed by leaving the loop is safe
+                    out.append((lp, coll, hit))
+    return out
+
+
+def _leaves_loop_after(lp, node):
+    """Is the mutation directly followed by break/return in the same block?"""
+    for blk in ast.walk(lp):
+        for fld in ('body', 'orelse'):
+            seq = getattr(blk, fld, None)
+            if not isinstance(seq, list):
+                continue
+            for i, st in enumerate(seq):
+                if any(x is node for x in ast.walk(st)):
+                    rest = seq[i + 1:]
+                    if rest and isinstance(rest[0], (ast.Break, ast.Return)):
+                        return True
+                    if isinstance(st, ast.Return):
+                        return True
+    return False
+
+
+def check_iter_mutation(ctx, rule, func, exceptions=None):
+    n = 0
+    for lp, coll, hit in iter_mutations(func.node):
+        if _leaves_loop_after(lp, hit):
+            continue
+        n += 1
+        key = (func.construct, coll)
+        if exceptions and key in exceptions:
+            ctx.exception(rule, '%s loop over %s' % key, exceptions[key])
+            continue
+        ctx.ob(rule, func.construct, 'the loop over %s does not mutate it' % coll, False,
+               detail='%s iterates %s and mutates it inside the loop with `%s`: elements are skipped (or the iteration fails)'
+                      % (func.construct, coll, norm(hit)), where=where(func, hit))
+    return n
